@@ -271,7 +271,8 @@ SPECS = {
                 claim="Theorem canonical_classes_edges_unique: for every labelling oracle meeting the canonical-form contract H2, two descriptions of one molecule get the same "
                       "label->class map and edge set (unbounded). The bliss contract itself is assumed and tested (K6 = the property on the implementation). Lifted (EndToEnd2.v): C04_molfile_texts_canonical_unique(_total) for any two accepted texts of one molecule.",
                 note=NOTE_MODEL, design_ref="DESIGN.md 4.4",
-                rule="same stream; per molecule the views (label -> element, mass, radical, class; edge set) of the canonical graphs of several relistings are compared; non-trivial as for C13"),
+                rule="same stream; per molecule the views (label -> element, mass, radical, class; edge set) of the canonical graphs of several relistings are compared; the same for "
+                     "molfile descriptions (renumbered, relisted, V3000 index numbers not in listing order); non-trivial as for C13"),
     "C12": dict(fn=c12, level="proof", components=["K5"], assumptions=MOL_ASSUME,
                 claim="Theorem canonicalize_is_renaming: for every oracle returning a bijection (H1) the canonical graph is the input under a one-to-one renaming onto 0..n-1 with every "
                       "payload and bond datum kept in place. Mutation/aliasing of Python objects cannot be exhibited by a pure model: decided by deep before/after comparison on the implementation. Lifted (EndToEnd2.v): C12_molfile_text_canonical_graph for every accepted text.",
@@ -305,7 +306,8 @@ SPECS = {
                       "(the readers never return a self-bond, a zero or a negative mass/radical: theorems). "
                       "The falsifier judges every emitted string with an independent regex/counting validator written from the EBNF text.",
                 note=NOTE_MODEL, design_ref="DESIGN.md 4.5",
-                rule="same stream; every emitted string judged by harness/validator.py (regex + counting from the EBNF text); + reader-side stream: V2000/V3000 renderings and the "
+                rule="same stream; every emitted string judged by harness/validator.py (regex + counting from the EBNF text; indices read as blocks of increasing atomic number "
+                     "must give the element pairs of the molecule's bonds and the elements of its labelled atoms); + reader-side stream (incl. atom lines that state a keyword twice): V2000/V3000 renderings and the "
                      "malformed streams of both formats (self-bonds, negative values, ...): whenever the reader accepts, the emitted string must validate and parse; non-trivial as for C13"),
 }
 
